@@ -29,6 +29,11 @@ GEOS = [
     dict(G0, shapes=[[], [3]]),                                    # rank 0 (no statistics, still grafted)
     dict(G0, shapes=[[2, 1, 3, 1]], merge=True, merge_limit=3),    # rank 4 with unit dims
     dict(G0, shapes=[[4, 3], [5]], memred=True),                   # int8-quantized momentum buffers
+    dict(G0, shapes=[[6, 5]], crank=2),                            # low-rank packed roots: 2 largest directions kept
+    # ... smallest direction kept.  Only shapes whose Gram matrices have a UNIQUE smallest eigenvalue from the
+    # first step on (7x6: ranks 6 of 7 and 6 of 6): with a tie at the cut the retained vector, and with it the
+    # denoted matrix, is not determined (C10 states the denotation for a spectral gap at the cut)
+    dict(G0, shapes=[[7, 6]], crank=-1),
 ]
 TOL = {"update": 2e-3, "update_memred": 3e-2, "stats": 1e-5, "roots": 1e-3}
 
